@@ -1058,6 +1058,15 @@ func doJSON(n int) {
 	for _, s := range fixedJSON {
 		emit([]byte(s), "fixed")
 	}
+	// every odd ticker text in both places a ticker is read (input type, conversion), plus escaped spellings of
+	// every kind of valid name
+	const fa = "FA2jK2HcLnRdS94dEcU27rF3meoJfpUcZPSinpb7AwQvPRY6RL1Q"
+	odd := append([]string{}, badTickers...)
+	odd = append(odd, "\\u0070USD", "pUS\\u0044", "\\u0050EG", "\\u0070\\u0046\\u0043\\u0054", "\\\"", "\\\\", "pUSD ", " pUSD")
+	for _, t := range odd {
+		emit([]byte(`{"version":1,"transactions":[{"input":{"address":"`+fa+`","amount":5,"type":"pFCT"},"conversion":"`+t+`"}]}`), "fixed-odd-conversion")
+		emit([]byte(`{"version":1,"transactions":[{"input":{"address":"`+fa+`","amount":5,"type":"`+t+`"},"conversion":"pUSD"}]}`), "fixed-odd-type")
+	}
 	for i := 0; i < n; i++ {
 		b := validBatch()
 		label := "valid"
